@@ -1,60 +1,87 @@
 ---------------------------- MODULE Orchestration ----------------------------
 (***************************************************************************)
-(* kopf/_core/reactor/orchestration.py: the observers revise the insights  *)
-(* (which (resource, namespace) pairs are served) under the `revised`      *)
-(* condition and notify; the orchestrator holds that condition's lock      *)
-(* except while it waits, and on every wake-up adjusts the watcher tasks:  *)
-(* stop the redundant ones (awaiting them), forget their keys, spawn the   *)
-(* missing ones.  A watcher may also die on its own (F15 / F25): its key   *)
-(* stays in the ensemble, so nothing respawns it.                          *)
+(* kopf/_core/reactor/orchestration.py + observation.py: the observers     *)
+(* revise the insights -- the set of watched resource kinds and the set of *)
+(* served namespaces -- under the `revised` condition and notify; the      *)
+(* orchestrator holds that condition's lock except while it waits, and on  *)
+(* every wake-up adjusts the watcher tasks (adjust_tasks):                 *)
+(*   terminate_redundancies   stop (and await) the tasks whose namespace   *)
+(*       is not in namespaces + {None} or whose resource is gone, then     *)
+(*       forget their keys;                                                *)
+(*   spawn_missing_watchers   for every (resource, namespace) of the       *)
+(*       product -- the namespace None for a cluster-scoped resource --    *)
+(*       that has no task under its key: spawn one.                        *)
+(* A task is keyed <<resource, namespace>>; "*" stands for None (cluster-  *)
+(* wide, or a cluster-scoped kind).  A watcher may also die on its own     *)
+(* (F15 / F25 / F32): its key stays in the ensemble, so nothing respawns   *)
+(* it.  Because None always counts as a remaining namespace, the watch of  *)
+(* a cluster-scoped kind survives the last served namespace, although it   *)
+(* would not be spawned without one (F34).                                 *)
 (* HoldLock = FALSE is the negative model (the lock is released while      *)
 (* adjusting): a revision then finds nobody waiting and is lost.           *)
 (***************************************************************************)
 EXTENDS Naturals, FiniteSets, TLC
-CONSTANTS Pairs, MaxRevisions, MaxDeaths, HoldLock
-VARIABLES want,       \* the insights: pairs that are served now
+CONSTANTS Res, Nss,          \* resource kinds, namespaces
+          ClusterScoped,     \* the cluster-scoped ones among Res
+          MaxRevisions, MaxDeaths, HoldLock
+VARIABLES res, nss,   \* the insights: watched resources, served namespaces
           notified,   \* a notify_all() not yet consumed by a waiter
           waiting,    \* the orchestrator is inside revised.wait() (the lock is free)
           pc,         \* "wait" | "stop" | "spawn"
-          tasks,      \* the ensemble: pair -> "live" | "stopping" | "dead"
+          tasks,      \* the ensemble: key -> "live" | "stopping" | "dead"
           redundant,  \* keys being terminated in this adjustment
           nrev, ndead
-vars == <<want, notified, waiting, pc, tasks, redundant, nrev, ndead>>
+vars == <<res, nss, notified, waiting, pc, tasks, redundant, nrev, ndead>>
 
-Init == /\ want = {} /\ notified = FALSE /\ waiting = TRUE /\ pc = "wait" /\ tasks = [p \in {} |-> "live"]
+KeyOf(r, n) == <<r, IF r \in ClusterScoped THEN "*" ELSE n>>
+\* what spawn_missing_watchers iterates over
+Spawnable(R, N) == {KeyOf(r, n) : r \in R, n \in N}
+\* what terminate_redundancies keeps
+Kept(R, N, k) == k[1] \in R /\ (k[2] = "*" \/ k[2] \in N)
+\* what the property calls served: a cluster-scoped kind is served as long as some namespace is
+Served == Spawnable(res, nss)
+
+Init == /\ res = {} /\ nss = {} /\ notified = FALSE /\ waiting = TRUE /\ pc = "wait" /\ tasks = [p \in {} |-> "live"]
         /\ redundant = {} /\ nrev = 0 /\ ndead = 0
 LockFree == waiting \/ ~HoldLock
 \* an observer: async with insights.revised: <revise>; notify_all()  -- a notification reaches only a task that is waiting
-Revise(w) == /\ LockFree /\ nrev < MaxRevisions /\ w # want /\ nrev' = nrev + 1
-             /\ want' = w /\ notified' = (notified \/ waiting)
-             /\ UNCHANGED <<waiting, pc, tasks, redundant, ndead>>
+Revise(R, N) == /\ LockFree /\ nrev < MaxRevisions /\ <<R, N>> # <<res, nss>> /\ nrev' = nrev + 1
+                /\ res' = R /\ nss' = N /\ notified' = (notified \/ waiting)
+                /\ UNCHANGED <<waiting, pc, tasks, redundant, ndead>>
 Wake == /\ pc = "wait" /\ waiting /\ notified
         /\ notified' = FALSE /\ waiting' = FALSE
-        /\ redundant' = {p \in DOMAIN tasks : p \notin want}
-        /\ tasks' = [p \in DOMAIN tasks |-> IF p \notin want /\ tasks[p] = "live" THEN "stopping" ELSE tasks[p]]
-        /\ pc' = "stop" /\ UNCHANGED <<want, nrev, ndead>>
-Stopped(p) == /\ pc = "stop" /\ p \in DOMAIN tasks /\ tasks[p] = "stopping"
-              /\ tasks' = [tasks EXCEPT ![p] = "dead"] /\ UNCHANGED <<want, notified, waiting, pc, redundant, nrev, ndead>>
-Forget == /\ pc = "stop" /\ \A p \in redundant : tasks[p] # "stopping"
-          /\ tasks' = [p \in DOMAIN tasks \ redundant |-> tasks[p]] /\ redundant' = {} /\ pc' = "spawn"
-          /\ UNCHANGED <<want, notified, waiting, nrev, ndead>>
-Spawn == /\ pc = "spawn"
-         /\ tasks' = [p \in DOMAIN tasks \cup want |-> IF p \in DOMAIN tasks THEN tasks[p] ELSE "live"]
-         /\ pc' = "wait" /\ waiting' = TRUE /\ UNCHANGED <<want, notified, redundant, nrev, ndead>>
-\* what the code does (F15, F25): a watcher ends on its own; its key stays
-Dies(p) == /\ p \in DOMAIN tasks /\ tasks[p] = "live" /\ ndead < MaxDeaths /\ ndead' = ndead + 1
-           /\ tasks' = [tasks EXCEPT ![p] = "dead"] /\ UNCHANGED <<want, notified, waiting, pc, redundant, nrev>>
-Next == (\E w \in SUBSET Pairs : Revise(w)) \/ Wake \/ (\E p \in Pairs : Stopped(p) \/ Dies(p)) \/ Forget \/ Spawn
-Spec == Init /\ [][Next]_vars /\ WF_vars(Wake \/ Forget \/ Spawn \/ \E p \in Pairs : Stopped(p))
+        /\ redundant' = {k \in DOMAIN tasks : ~Kept(res, nss, k)}
+        /\ tasks' = [k \in DOMAIN tasks |-> IF ~Kept(res, nss, k) /\ tasks[k] = "live" THEN "stopping" ELSE tasks[k]]
+        /\ pc' = "stop" /\ UNCHANGED <<res, nss, nrev, ndead>>
+Stopped(k) == /\ pc = "stop" /\ k \in DOMAIN tasks /\ tasks[k] = "stopping"
+              /\ tasks' = [tasks EXCEPT ![k] = "dead"] /\ UNCHANGED <<res, nss, notified, waiting, pc, redundant, nrev, ndead>>
+Forget == /\ pc = "stop" /\ \A k \in redundant : tasks[k] # "stopping"
+          /\ tasks' = [k \in DOMAIN tasks \ redundant |-> tasks[k]] /\ redundant' = {} /\ pc' = "spawn"
+          /\ UNCHANGED <<res, nss, notified, waiting, nrev, ndead>>
+Missing == Spawnable(res, nss) \ DOMAIN tasks
+SpawnOne(k) == /\ pc = "spawn" /\ k \in Missing
+               /\ tasks' = [x \in DOMAIN tasks \cup {k} |-> IF x = k THEN "live" ELSE tasks[x]]
+               /\ UNCHANGED <<res, nss, notified, waiting, pc, redundant, nrev, ndead>>
+Rest == /\ pc = "spawn" /\ Missing = {} /\ pc' = "wait" /\ waiting' = TRUE
+        /\ UNCHANGED <<res, nss, notified, tasks, redundant, nrev, ndead>>
+\* what the code does (F15, F25, F32): a watcher ends on its own; its key stays
+Dies(k) == /\ k \in DOMAIN tasks /\ tasks[k] = "live" /\ ndead < MaxDeaths /\ ndead' = ndead + 1
+           /\ tasks' = [tasks EXCEPT ![k] = "dead"] /\ UNCHANGED <<res, nss, notified, waiting, pc, redundant, nrev>>
+Keys == {KeyOf(r, n) : r \in Res, n \in Nss}
+Next == (\E R \in SUBSET Res : \E N \in SUBSET Nss : Revise(R, N)) \/ Wake \/ (\E k \in Keys : Stopped(k) \/ Dies(k) \/ SpawnOne(k)) \/ Forget \/ Rest
+Spec == Init /\ [][Next]_vars /\ WF_vars(Wake \/ Forget \/ Rest \/ \E k \in Keys : Stopped(k) \/ SpawnOne(k))
 
-Live == {p \in DOMAIN tasks : tasks[p] = "live"}
+Live == {k \in DOMAIN tasks : tasks[k] = "live"}
 AtRest == pc = "wait" /\ ~notified
+\* F34: the watches of cluster-scoped kinds that outlive the last served namespace
+Family_F34 == nss = {} /\ Live # {} /\ \A k \in Live : k[1] \in ClusterScoped /\ k[1] \in res
 \* exactly the served pairs are watched whenever the orchestrator is at rest (no death of a watcher on its own)
-Coverage == (AtRest /\ ndead = 0) => Live = want
-\* (nothing is watched twice: the ensemble is a mapping from pairs to tasks)
-EventuallyCovered == <>[](ndead = 0 => Live = want)
-NoFamily == ~(AtRest /\ ndead > 0 /\ Live # want)
+Coverage == (AtRest /\ ndead = 0) => (Live = Served \/ Family_F34)
+NoF34 == ~(AtRest /\ ndead = 0 /\ Family_F34)
+\* (nothing is watched twice: the ensemble is a mapping from keys to tasks)
+EventuallyCovered == <>[](ndead = 0 => (Live = Served \/ Family_F34))
+NoFamily == ~(AtRest /\ ndead > 0 /\ Live # Served)
 \* the state without the bookkeeping counter: with it as VIEW, TLC covers ANY number of revisions (the rest is finite)
-NoCount == <<want, notified, waiting, pc, tasks, redundant, ndead>>
-Family_F15F25 == AtRest /\ ndead > 0 /\ Live # want
+NoCount == <<res, nss, notified, waiting, pc, tasks, redundant, ndead>>
+Family_F15F25 == AtRest /\ ndead > 0 /\ Live # Served
 =============================================================================
